@@ -49,8 +49,8 @@ def hSync (j : Json) : Except String Json := do
   let before ← (← getArr j "before").toList.mapM parseSnap
   let after ← (← getArr j "after").toList.mapM parseSnap
   let o := parseSyncOpt ((j.getObjVal? "opt").toOption.getD (jobj []))
-  let evs := syncEvents o before view
-  let reqs := expectedReqs o before view
+  let evs := syncEvents o before after view
+  let reqs := expectedReqs o before after view
   let mut out := [("events", Json.arr (evs.map evJ).toArray), ("reqs", toJson reqs),
                   ("sent", Json.arr (view.map (fun v => statJ v.st)).toArray),
                   ("links_closed", toJson (F.linksClosed [] (view.map (·.st))))]
@@ -60,7 +60,7 @@ def hSync (j : Json) : Except String Json := do
   match j.getObjVal? "notif" with
   | .ok (.arr ns) =>
     let ievs ← ns.toList.mapM parseNotif
-    let lower := (lowerOf o before).map StatE.toEnt
+    let lower := (lowerObs o before after view).map StatE.toEnt
     let upperF := view.map fun v => (applyRFilter o v.st).toEnt
     -- notifications carry the stat as sent (unfiltered); compare on the filtered listing by path
     -- add and modify are both read as "the path now carries this entry" (the code reports every regular
